@@ -224,6 +224,13 @@ func (r *Run) Violations() int {
 	return len(r.seenSig)
 }
 
+// NumSamples is the number of samples recorded so far.
+func (r *Run) NumSamples() int {
+	r.mu.Lock()
+	defer r.mu.Unlock()
+	return len(r.samples)
+}
+
 // Coverage is what Finish writes under "coverage"; extra keys welcome.
 type Coverage map[string]interface{}
 
@@ -233,6 +240,10 @@ func (r *Run) Finish(cov Coverage) {
 	defer r.mu.Unlock()
 	if _, ok := cov["samples"]; !ok {
 		cov["samples"] = r.samples
+	}
+	// "samples" must be a list (an empty one when the run selected no sample)
+	if v, ok := cov["samples"].([]interface{}); ok && v == nil {
+		cov["samples"] = []interface{}{}
 	}
 	if len(r.inexhaust) > 0 {
 		cov["exhaustive"] = false
